@@ -340,3 +340,19 @@ Proof.
          | |- context [if ?c then _ else _] => destruct c; step_view; rewrite ?bytes_eqb_refl'; step_view
          end; reflexivity.
 Qed.
+
+(* ---- ReadPacket, in the model's own form (a returned error is the model's Fail) *)
+Theorem ReadPacket_translated s : all_bytes s ->
+  run_flat (as_dec (bind sem_ReadPacket (fun r => Ret (frame3 r)))) s = run_flat rcon_read s.
+Proof.
+  intros B. rewrite <- rcon_read4_is_model. unfold as_dec.
+  rewrite !run_flat_bind_assoc. apply bind_rd_equiv. exact B.
+Qed.
+(* the interpretation never panics and never gets stuck, on any byte string *)
+Theorem ReadPacket_interp_total s : all_bytes s -> ok_or_err (run_flat sem_ReadPacket s).
+Proof.
+  intros B. rewrite sem_ReadPacket_is_model by exact B.
+  apply no_crash_total. unfold rcon_read4. constructor. intros lb. cbv zeta.
+  destruct (rd32 lb <? rcon_overhead)%Z; [constructor|].
+  destruct (rcon_max <? rd32 lb)%Z; constructor. intros; constructor.
+Qed.
